@@ -14,7 +14,7 @@ EXPLANATION = (
     '(and the loser at the loser name), deletes remove the entry; (R5) the archive saved is exactly that map, with the epoch bumped, at the path '
     'that was loaded; the recorded map never lets a trusted-base entry override the fingerprint just scanned (fresh.chain(base) collected into a map is reported); (R6) = C02.R5 no stale base entries; (R7) mirror symmetry and Noop on a=b=base from the C18 table; (R8) fingerprint_path hashes '
     'only the bytes of the file (or the link target) and takes the type from symlink_metadata; (R9) a failed delete is not recorded as done; (R10) every non-dry-run Ok return of run_bisync passes Archive::save, so a run that reports success has recorded the state it left; (R11) = C02.R8 the applied plan is the value reconcile() returned. '
-    'Not decided: convergence and idempotence as behaviours (paper argument from R4-R7 + C18).')
+    '(R12) a hand-written merge pass over the two scans in the reconcile module compares their keys as paths (raw bytes / strings are another order than the maps are sorted in: reported). Not decided: convergence and idempotence as behaviours (paper argument from R4-R7 + C18).')
 ASSUMPTIONS = ['BLAKE3 collision freeness', 'BTreeMap API semantics']
 
 
